@@ -13,6 +13,7 @@ import (
 	"errors"
 	"fmt"
 	"net/http"
+	"net/url"
 	"reflect"
 	"strings"
 
@@ -145,6 +146,11 @@ func exchange(op *runtime.ClientOperation, def runtime.ClientAuthInfoWriter, ser
 // exchangeAfter is exchange on a transport that has, if earlier is non-nil, already sent one plain request with
 // that earlier default credential configured.
 func exchangeAfter(earlier runtime.ClientAuthInfoWriter, op *runtime.ClientOperation, def runtime.ClientAuthInfoWriter, serve func(r *http.Request)) *kit.Violation {
+	return exchangeAfterBase("/", earlier, op, def, serve)
+}
+
+// exchangeAfterBase is exchangeAfter on a transport with the given base path (which may fix query parameters).
+func exchangeAfterBase(base string, earlier runtime.ClientAuthInfoWriter, op *runtime.ClientOperation, def runtime.ClientAuthInfoWriter, serve func(r *http.Request)) *kit.Violation {
 	warming := earlier != nil
 	w := &wire{h: http.HandlerFunc(func(rw http.ResponseWriter, r *http.Request) {
 		if !warming {
@@ -154,7 +160,7 @@ func exchangeAfter(earlier runtime.ClientAuthInfoWriter, op *runtime.ClientOpera
 		rw.WriteHeader(http.StatusOK)
 		_, _ = rw.Write([]byte("{}\n"))
 	})}
-	rt := client.New("example.test", "/", []string{"http"})
+	rt := client.New("example.test", base, []string{"http"})
 	rt.Transport = checkedWire{w}
 	if earlier != nil {
 		rt.DefaultAuthentication = earlier
@@ -216,7 +222,12 @@ type BasicCase struct {
 	Callback string   `json:"callback"`
 	Scoped   bool     `json:"scoped,omitempty"`
 	Method   string   `json:"method"`
+	// Earlier: the request has already been through another basic authenticator (realm earlierRealm, rejecting
+	// everything), as happens when an operation lists two basic schemes as alternatives.
+	Earlier bool `json:"earlier,omitempty"`
 }
+
+const earlierRealm = "the earlier realm"
 
 func (c BasicCase) wantRealm() string {
 	if c.NoRealm || c.Realm == "" {
@@ -266,6 +277,11 @@ func runBasic(c BasicCase, ctxVariant bool) (*seen, *kit.Violation) {
 	}
 	v := exchange(op, nil, func(r *http.Request) {
 		s.runs++
+		if c.Earlier {
+			_, _, _ = security.BasicAuthRealm(earlierRealm, func(string, string) (interface{}, error) {
+				return nil, errors.New("rejected by the earlier authenticator")
+			}).Authenticate(authParam(r, c.Scoped, []string{"ignored"}))
+		}
 		s.applies, s.princ, s.err = auth.Authenticate(authParam(r, c.Scoped, []string{"ignored"}))
 		s.failed = security.FailedBasicAuth(r)
 		s.oauth = security.OAuth2SchemeName(r)
@@ -280,7 +296,7 @@ func CheckBasic(c BasicCase) *kit.Violation {
 		if v != nil {
 			return v
 		}
-		what := fmt.Sprintf("BASIC ctx-variant=%v send=%s user=%q pass=%q other=%q realm=%q no-realm=%v callback=%s scoped=%v", ctxVariant, c.Send, c.User, c.Pass, c.Other, c.Realm, c.NoRealm, c.Callback, c.Scoped)
+		what := fmt.Sprintf("BASIC ctx-variant=%v send=%s user=%q pass=%q other=%q realm=%q no-realm=%v callback=%s scoped=%v after-another-basic-authenticator=%v", ctxVariant, c.Send, c.User, c.Pass, c.Other, c.Realm, c.NoRealm, c.Callback, c.Scoped, c.Earlier)
 		if s.nilCtx {
 			return kit.Failf("%s: the context-aware callback was handed a nil context", what)
 		}
@@ -289,6 +305,8 @@ func CheckBasic(c BasicCase) *kit.Violation {
 			wantFailed := ""
 			if cbErr != nil {
 				wantFailed = c.wantRealm()
+			} else if c.Earlier {
+				wantFailed = s.failed // a success leaves the earlier authenticator's marker alone or clears it: not this property's business
 			}
 			if !s.applies || len(s.calls) != 1 || !reflect.DeepEqual(s.calls[0], []string{string(c.User), string(c.Pass)}) ||
 				!sameResult(s.princ, s.err, c.Callback) || s.failed != wantFailed {
@@ -318,6 +336,13 @@ type KeyCase struct {
 	Callback   string   `json:"callback"`
 	Scoped     bool     `json:"scoped,omitempty"`
 	Method     string   `json:"method"`
+	// Static: the base path ("base") or the path pattern ("pattern") fixes a query parameter of the key's name
+	// (value "anonymous"); the credential the caller attaches takes precedence.
+	Static string `json:"static,omitempty"`
+	// AfterBearer: the request carries a form body ("urlencoded" | "multipart") with a field named like the key and
+	// has been through a bearer authenticator (which found nothing) before the key authenticator sees it, as happens
+	// for an operation that lists oauth2 and apiKey requirements.
+	AfterBearer string `json:"after_bearer,omitempty"`
 }
 
 func runKey(c KeyCase, ctxVariant bool) (*seen, *kit.Violation) {
@@ -356,12 +381,35 @@ func runKey(c KeyCase, ctxVariant bool) (*seen, *kit.Violation) {
 	if c.Send != "none" && op.AuthInfo == nil {
 		return nil, kit.Failf("KEY client.APIKeyAuth(%q, %q, …) returned no writer", c.Name, c.In)
 	}
-	v := exchange(op, nil, func(r *http.Request) {
+	base := "/"
+	switch c.Static {
+	case "base":
+		base = "/?" + url.QueryEscape(c.Name) + "=anonymous"
+	case "pattern":
+		op.PathPattern = "/secured?" + url.QueryEscape(c.Name) + "=anonymous"
+	}
+	if c.AfterBearer != "" {
+		op.ConsumesMediaTypes = []string{map[string]string{"urlencoded": "application/x-www-form-urlencoded", "multipart": "multipart/form-data"}[c.AfterBearer]}
+		op.Params = runtime.ClientRequestWriterFunc(func(req runtime.ClientRequest, _ strfmt.Registry) error {
+			return req.SetFormParam(c.Name, "from-the-body")
+		})
+	}
+	bearerFound := false
+	v := exchangeAfterBase(base, nil, op, nil, func(r *http.Request) {
 		s.runs++
+		if c.AfterBearer != "" {
+			applies, _, _ := security.BearerAuth("oa", func(string, []string) (interface{}, error) {
+				return nil, errors.New("rejected by the bearer authenticator")
+			}).Authenticate(&security.ScopedAuthRequest{Request: r, RequiredScopes: []string{"read"}})
+			bearerFound = applies
+		}
 		s.applies, s.princ, s.err = auth.Authenticate(authParam(r, c.Scoped, nil))
 		s.failed = security.FailedBasicAuth(r)
 		s.oauth = security.OAuth2SchemeName(r)
 	})
+	if v == nil && bearerFound {
+		return nil, kit.Failf("harness: the bearer authenticator found a token on a request that carries none")
+	}
 	return s, v
 }
 
@@ -372,7 +420,7 @@ func CheckKey(c KeyCase) *kit.Violation {
 		if v != nil {
 			return v
 		}
-		what := fmt.Sprintf("APIKEY ctx-variant=%v in=%s(server %q) name=%q(server %q) value=%q send=%s callback=%s scoped=%v", ctxVariant, c.In, c.ServerIn, c.Name, c.ServerName, c.Value, c.Send, c.Callback, c.Scoped)
+		what := fmt.Sprintf("APIKEY ctx-variant=%v in=%s(server %q) name=%q(server %q) value=%q send=%s callback=%s scoped=%v static-query-parameter-of-that-name=%q form-body-field-of-that-name-after-a-bearer-authenticator=%q", ctxVariant, c.In, c.ServerIn, c.Name, c.ServerName, c.Value, c.Send, c.Callback, c.Scoped, c.Static, c.AfterBearer)
 		if s.nilCtx {
 			return kit.Failf("%s: the context-aware callback was handed a nil context", what)
 		}
